@@ -160,13 +160,15 @@ def evaluate(case):
             if inp.get("as_list") == "nested_gen":
                 # the text is a lazy iterable of lines; while it is being consumed its producer parses another text with
                 # the same parser object (an include-like construct)
-                def _lines(lines=text.split("\n"), at=inp.get("nest_at", 0)):
+                other = case["inputs"][(inp.get("nest_at", 0) + 1) % len(case["inputs"])]
+                other_text = gk.render(concrete_tokens(conc, other["toks"]), other["seps"])[0]
+                nested_text = other_text if inp.get("nest_at", 0) % 2 else "a /* b"
+
+                def _lines(lines=text.split("\n"), at=inp.get("nest_at", 0), nested_text=nested_text):
                     for i, ln in enumerate(lines):
                         if i == at % max(1, len(lines)):
-                            try:
-                                parser.parse("a /* b", do_cleanup=False)
-                            except Exception:   # noqa
-                                pass
+                            # another (often valid) text, or a rejected one - under a divergence monitor of its own
+                            parse_guarded(L, parser, nested_text, len(other["toks"]) + 4, budget=40000, do_cleanup=False)
                         yield ln
                 src = _lines()
                 classes.add("nested_parse_while_lines_are_consumed")
